@@ -492,19 +492,50 @@ def run(repo, rep, tier):
               "value, lineno and offset on every path (the fallback "
               "expression may read any of them)",
               construct="error-info-complete", where=L.where(ei))
+    # ... and line / column are the position's items as they are: lines count
+    # from 1 but columns from 0, so a truth test or arithmetic on them loses
+    # a legitimate value
+    f, prm, items = _position_reads(repo)
+    want = {"lineno": 0, "offset": 1}
+    got = {}
+    for n in ast.walk(f.node):
+        if isinstance(n, ast.Assign) and len(n.targets) == 1 and \
+                src(n.targets[0]) in ("self.lineno", "self.offset"):
+            a = src(n.targets[0]).split(".")[1]
+            got.setdefault(a, []).append(items.get(src(n.value)))
+    rep.check(all(got.get(a) and all(v == k for v in got[a])
+                  for a, k in want.items()),
+              "R13.4", ei.qualname, "error.lineno / error.offset are items "
+              "0 / 1 of the position, unchanged (column 0 is a column; "
+              "got %s)" % got, construct="error-position-verbatim",
+              where=L.where(ei))
     L.state_rule(repo, rep)
 
 
-def _position_items(repo):
+def _position_reads(repo):
+    """ErrorInfo.__init__'s reads of its position argument: ({local name or
+    'position[k]' text: item index}, number of items read)"""
     f = repo.func("chameleon.tal.ErrorInfo.__init__")
     prm = f.node.args.args[2].arg if len(f.node.args.args) > 2 else None
-    idx = [n.slice.value for n in ast.walk(f.node)
-           if isinstance(n, ast.Subscript) and src(n.value) == prm
-           and isinstance(n.slice, ast.Constant)
-           and isinstance(n.slice.value, int)]
-    if prm is None or not idx:
+    items = {}
+    for n in ast.walk(f.node):
+        if isinstance(n, ast.Subscript) and src(n.value) == prm and \
+                isinstance(n.slice, ast.Constant) and \
+                isinstance(n.slice.value, int):
+            items[src(n)] = n.slice.value
+        if isinstance(n, ast.Assign) and src(n.value) == prm and \
+                isinstance(n.targets[0], ast.Tuple) and \
+                all(isinstance(t, ast.Name) for t in n.targets[0].elts):
+            for k, t in enumerate(n.targets[0].elts):
+                items[t.id] = k
+    return f, prm, items
+
+
+def _position_items(repo):
+    f, prm, items = _position_reads(repo)
+    if prm is None or not items:
         raise AnalysisError("ErrorInfo.__init__: position reads not found")
-    return max(idx) + 1
+    return max(items.values()) + 1
 
 
 def _entry_arity(repo):
